@@ -10,8 +10,11 @@ import (
 	"strings"
 	"time"
 
+	"github.com/gorilla/websocket"
+
 	"github.com/andydunstall/piko/client"
 	"github.com/andydunstall/piko/pkg/auth"
+	pikowebsocket "github.com/andydunstall/piko/pkg/websocket"
 	"github.com/andydunstall/piko/server/config"
 
 	"verif/harness/core"
@@ -140,6 +143,33 @@ func (rg *c10rig) proxyCase(c c10case, tok string) (int, string, error) {
 			return 0, "", err
 		}
 		return 101, resp.Header.Get("X-Stamp"), nil
+	case "tcp-conflict":
+		// the TCP route names the target in the path; the handshake also carries an
+		// x-piko-endpoint header and a Host label that name ANOTHER endpoint. The
+		// endpoint that is checked must be the one routed to: the path's.
+		hd := http.Header{}
+		hd.Set("Authorization", "Bearer "+tok)
+		hd.Set("x-piko-endpoint", c.Other)
+		hd.Set("Host", c.Other+".piko.test")
+		d := websocket.Dialer{HandshakeTimeout: 10 * time.Second}
+		ws, resp, err := d.Dial("ws://"+entry.ProxyAddr()+"/_piko/v1/tcp/"+c.Target, hd)
+		if err != nil {
+			if resp != nil {
+				return resp.StatusCode, "", nil
+			}
+			return 0, "", err
+		}
+		conn := pikowebsocket.New(ws)
+		defer conn.Close()
+		_ = conn.SetDeadline(time.Now().Add(10 * time.Second))
+		if _, err := conn.Write([]byte("GET /c10-tunnel HTTP/1.1\r\nHost: tunnel\r\nConnection: close\r\n\r\n")); err != nil {
+			return 0, "", err
+		}
+		hresp, err := http.ReadResponse(bufio.NewReader(conn), &http.Request{Method: "GET"})
+		if err != nil {
+			return 0, "", err
+		}
+		return 101, hresp.Header.Get("X-Stamp"), nil
 	case "host":
 		resp, err := Get(entry.ProxyAddr(), c.Target+".piko.test", "/c10", [][2]string{authH}, 10*time.Second)
 		if err != nil {
@@ -173,14 +203,14 @@ func runC10Endpoints(sh *core.Shard, a props.Args) bool {
 	for _, cs := range c10ClaimSets {
 		tok := hsToken(rg.key, cs.List, time.Hour)
 		for _, via := range []string{"local", "forwarded"} {
-			for _, naming := range []string{"host", "header", "conflict", "tcp"} {
+			for _, naming := range []string{"host", "header", "conflict", "tcp", "tcp-conflict"} {
 				for _, target := range c10Endpoints {
 					others := []string{""}
-					if naming == "conflict" {
+					if naming == "conflict" || naming == "tcp-conflict" {
 						others = c10Endpoints
 					}
 					for _, other := range others {
-						if naming == "conflict" && other == target {
+						if (naming == "conflict" || naming == "tcp-conflict") && other == target {
 							continue
 						}
 						c := c10case{cs.Name, naming, target, other, via}
@@ -433,7 +463,7 @@ func runC10(sh *core.Shard, a props.Args) {
 func init() {
 	props.Register(&props.Prop{
 		ID: "C10", Level: "fault_enumeration", Race: true, ExhaustiveWhenAll: true,
-		Rule: "endpoint confinement: a 2-node real cluster with HMAC auth on proxy and upstream ports and one stamping upstream per endpoint of {a, a1, A, a-b, b}; 11 claim sets (no claim, empty list, [a], [a b], [a1], [A], [a-b], [b], [a.], [a*], ['']) x naming in {first Host label, x-piko-endpoint header, conflicting Host label + header, /_piko/v1/tcp path} x every target (x every other endpoint in the Host for conflicts) x local and forwarded entry; oracle: served (2xx/101 + stamp) iff the claim set is empty or lists exactly the named endpoint, the stamp's endpoint equals the named endpoint (the endpoint checked is the endpoint routed to), otherwise 401 and no upstream saw the request. Upstream port: the same claim sets x 8 endpoint ids: accepted (101) iff permitted and then exactly one more upstream appears in the registry under exactly that id; otherwise 401 and the registry is unchanged. Tenant matrix: tenant tables of 0-3 tenants with distinct keys, with and without a default key; every (token signed by default / t1 / t2 / t3 / unknown key) x (x-piko-tenant-id absent, t1, t2, t3, unknown, T1, default): accepted iff the header names a configured tenant whose key signed the token, or no tenants are configured, no header is sent and the default key signed it. All three matrices are enumerated completely. Distinct = one per case.",
+		Rule: "endpoint confinement: a 2-node real cluster with HMAC auth on proxy and upstream ports and one stamping upstream per endpoint of {a, a1, A, a-b, b}; 11 claim sets (no claim, empty list, [a], [a b], [a1], [A], [a-b], [b], [a.], [a*], ['']) x naming in {first Host label, x-piko-endpoint header, conflicting Host label + header, /_piko/v1/tcp path, the TCP path with a header and Host label naming another endpoint} x every target (x every other endpoint in the Host for conflicts) x local and forwarded entry; oracle: served (2xx/101 + stamp) iff the claim set is empty or lists exactly the named endpoint, the stamp's endpoint equals the named endpoint (the endpoint checked is the endpoint routed to), otherwise 401 and no upstream saw the request. Upstream port: the same claim sets x 8 endpoint ids: accepted (101) iff permitted and then exactly one more upstream appears in the registry under exactly that id; otherwise 401 and the registry is unchanged. Tenant matrix: tenant tables of 0-3 tenants with distinct keys, with and without a default key; every (token signed by default / t1 / t2 / t3 / unknown key) x (x-piko-tenant-id absent, t1, t2, t3, unknown, T1, default): accepted iff the header names a configured tenant whose key signed the token, or no tenants are configured, no header is sent and the default key signed it. All three matrices are enumerated completely. Distinct = one per case.",
 		Assumptions: []string{
 			"HMAC keys (confinement logic is independent of the key family, which C09 covers)",
 			"a 502 for a permitted endpoint is retried once after routing re-settles (false suspicion under load is not a confinement matter)",
